@@ -160,28 +160,20 @@ let err_class = function
 
 (* ---------------------------------------------------------------- suite codec *)
 let decode_kfs : (string * (n -> n list -> bool)) list = [
-  "kf_varint_long", kf_varint_long;
-  "kf_varint_eof", kf_varint_eof;
   "kf_varint_noncanonical", kf_varint_noncanonical;
-  "kf_connack_v5", kf_connack_v5;
   "kf_auth_v3", kf_auth_v3;
   "kf_ack_flags", kf_ack_flags;
-  "kf_connect_v31_pack", kf_connect_v31_pack;
-  "kf_will_qos3", kf_will_qos3;
   "kf_v3_password_without_username", kf_v3_password_without_username;
   "kf_connect_props_will", kf_connect_props_will;
   "kf_retain_handling_3", kf_retain_handling_3;
   "kf_nolocal_shared", kf_nolocal_shared;
-  "kf_filter_plus_prefix", kf_filter_plus_prefix;
   "kf_unsub_share_syntax", kf_unsub_share_syntax;
   "kf_pid_zero", kf_pid_zero;
   "kf_name_empty", kf_name_empty;
   "kf_prop_len_overrun", kf_prop_len_overrun;
-  "kf_varint_eof_inner", kf_varint_eof_inner;
+  "kf_proplen_omitted", kf_proplen_omitted;
   "kf_trailing", kf_trailing;
-  "kf_utf8_fffd", kf_utf8_fffd;
-  "kf_authdata_utf8", kf_authdata_utf8;
-  "kf_password_utf8", kf_password_utf8;
+  "kf_topic_fffd", kf_topic_fffd;
 ]
 
 let rec drop k l = if k <= 0 then l else match l with [] -> [] | _ :: r -> drop (k - 1) r
@@ -227,7 +219,7 @@ let run (input : Sexp.t) (impl : Sexp.t) : Verdict.t =
   { Verdict.agree; oracle; kf;
     nontrivial = List.length bs >= 2;
     cls = Printf.sprintf "%s_v%d_%s_%s" src (int_of_n v) (type_name bs) outcome;
-    model = Sexp.L [Sexp.L (Sexp.A "dec" :: List.map sx_step msteps); Sexp.L [Sexp.A "alloc"; sx_n malloc]] }
+    model = Sexp.L [Sexp.L (Sexp.A "dec" :: List.map sx_step msteps); Sexp.L [Sexp.A "alloc"; sx_n malloc]]; why = "" }
 
 (* ---------------------------------------------------------------- suite cenc *)
 let run_enc (input : Sexp.t) (impl : Sexp.t) : Verdict.t =
@@ -237,14 +229,12 @@ let run_enc (input : Sexp.t) (impl : Sexp.t) : Verdict.t =
   let mr = model_reenc v b in
   let agree = (mr = ir) in
   let oracle = c06_encode_ok v b ir in
-  let kf = if oracle then "-" else if kf_enc_connect_v31 b then "kf_connect_v31_pack" else if kf_enc_fffd b then "kf_utf8_fffd"
-    else if kf_enc_connack_v5 b then "kf_connack_v5" else if kf_enc_password_utf8 b then "kf_password_utf8"
-    else if kf_enc_authdata_utf8 b then "kf_authdata_utf8" else "-" in
+  let kf = if oracle then "-" else if kf_enc_topic_fffd b then "kf_topic_fffd" else "-" in
   let name = match Sexp.field1 "pkt" input with Sexp.L (Sexp.A n :: _) -> n | _ -> "?" in
   { Verdict.agree; oracle; kf; nontrivial = wf_packet b;
     cls = Printf.sprintf "v%d_%s_%s" (int_of_n v) name
         (match ir with RtBytes (_, _, D1Ok _) -> "ok" | RtBytes (_, _, D1Err e) -> "back_" ^ err_class e | RtErr e -> "packerr_" ^ err_class e | _ -> "panic");
-    model = sx_reenc mr }
+    model = sx_reenc mr; why = "" }
 
 (* ---------------------------------------------------------------- suite ctopic *)
 let tbool_of_sx = function Sexp.A "panic" -> TBPanic | x -> TB (bool_of_sx x)
@@ -261,15 +251,14 @@ let run_topic (input : Sexp.t) (impl : Sexp.t) : Verdict.t =
   let oracle = c06_topic_ok s io in
   let kf = if oracle then "-"
     else if kf_t_name_empty s then "kf_name_empty"
-    else if kf_t_plus_prefix s then "kf_filter_plus_prefix"
-    else if kf_t_fffd s then "kf_utf8_fffd"
+    else if kf_t_fffd s then "kf_topic_fffd"
     else if kf_t_nul s then "kf_topic_nul"
     else "-" in
   let c k b = match b with TB true -> k | _ -> "" in
   { Verdict.agree = topic_obs_eqb mo io; oracle; kf;
     nontrivial = s <> [];
     cls = "t" ^ c "U" io.to_utf8 ^ c "N" io.to_name1 ^ c "n" io.to_name0 ^ c "F" io.to_filter1 ^ c "f" io.to_filter0 ^ c "S" io.to_v5;
-    model = sx_topic_obs mo }
+    model = sx_topic_obs mo; why = "" }
 
 (* ---------------------------------------------------------------- suite cmsg *)
 let run_msg (input : Sexp.t) (impl : Sexp.t) : Verdict.t =
@@ -288,4 +277,4 @@ let run_msg (input : Sexp.t) (impl : Sexp.t) : Verdict.t =
   { Verdict.agree; oracle; kf = "-"; nontrivial = true;
     cls = Printf.sprintf "v%d_qos%d_%s" (int_of_n v) (int_of_n m.m_qos) (if sz < 0 then "err" else if sz < 130 then "small" else if sz < 16390 then "mid" else "large");
     model = Sexp.L [Sexp.L [Sexp.A "tb"; sx_n mtb]; Sexp.L [Sexp.A "pub"; sx_packet { p_fh = None; p_body = mpub }];
-                    Sexp.L [Sexp.A "enc"; (match menc with RtBytes (b, tb2, _) -> Sexp.L [Sexp.A "bytes"; sx_bytes b; sx_n tb2] | r -> sx_reenc r)]] }
+                    Sexp.L [Sexp.A "enc"; (match menc with RtBytes (b, tb2, _) -> Sexp.L [Sexp.A "bytes"; sx_bytes b; sx_n tb2] | r -> sx_reenc r)]]; why = "" }
